@@ -138,18 +138,24 @@ func c09Replay(args []string) *Result {
 				break
 			}
 			// corresponding line of the file that now holds the directive
-			t := -1
+			// (an error inside a body stands some lines below the keyword of its directive: same offset in the split project)
+			t, off := -1, 0
 			for i, l := range whole.tokLine {
-				if l == a.Line {
-					t = i
+				if l <= a.Line && (t < 0 || l >= whole.tokLine[t]) {
+					t, off = i, a.Line-l
 				}
 			}
 			var flat []fpos
 			flattenProject(cs.Content, "root.jst", 0, &flat)
 			if t >= 0 && t < len(flat) && len(flat) == len(cs.Doc) {
 				want := flat[t]
-				if p.rel(b.File) != want.f || b.Line != p.lineOf(want.f, want.i) {
-					res.mismatch("c09:location", fmt.Sprintf("%q reported at %s:%d, the directive now lives at %s:%d", firstLine(b.Msg), p.rel(b.File), b.Line, want.f, p.lineOf(want.f, want.i)), replay)
+				if p.rel(b.File) != want.f || b.Line != p.lineOf(want.f, want.i)+off {
+					res.mismatch("c09:location", fmt.Sprintf("%q reported at %s:%d, the directive now lives at %s:%d", firstLine(b.Msg), p.rel(b.File), b.Line, want.f, p.lineOf(want.f, want.i)+off), replay)
+					break
+				}
+				// C07: whatever the place, it has to be a real one (file of the project, index inside it, its line / column / quote)
+				if b.Err != nil && !locationTruthful(b.Err) {
+					res.mismatch("c07:location-untruthful", fmt.Sprintf("%q: file / index / line / column / quote of the error do not describe a position of %s", firstLine(b.Msg), p.rel(b.File)), replay)
 					break
 				}
 			} else {
